@@ -25,6 +25,10 @@ struct Task {
     pending: String,
     pending_res: String,
     prio: u64,
+    /// blocked with a timeout: may be woken by the scheduler when nothing else can run
+    timed: bool,
+    /// the last timed block ended by timeout rather than by a wake-up
+    timed_out: bool,
 }
 
 pub struct Inner {
@@ -127,6 +131,8 @@ pub fn init() {
         pending: String::new(),
         pending_res: String::new(),
         prio,
+        timed: false,
+        timed_out: false,
     });
     g.current = 0;
     let _ = writeln!(
@@ -339,8 +345,19 @@ fn switch(res: &str, label: &str) {
     if g.step > max {
         finish_run(&mut g, "STEP-BOUND", EXIT_STEP_BOUND);
     }
-    let runnable: Vec<usize> =
+    let mut runnable: Vec<usize> =
         g.tasks.iter().enumerate().filter(|(_, t)| t.status == Status::Runnable).map(|(i, _)| i).collect();
+    if runnable.is_empty() {
+        // nothing can run: simulated time jumps to the earliest pending timeout (there is no
+        // clock in the system, so "earliest" is the lowest task id — a fixed, replayable rule)
+        if let Some(i) = g.tasks.iter().position(|t| matches!(t.status, Status::Blocked(_)) && t.timed) {
+            g.tasks[i].status = Status::Runnable;
+            g.tasks[i].timed = false;
+            g.tasks[i].timed_out = true;
+            let _ = writeln!(g.trace, "N\t{}\ttimeout fires for task {}", me, i);
+            runnable.push(i);
+        }
+    }
     if runnable.is_empty() {
         let blocked: Vec<String> = g
             .tasks
@@ -419,8 +436,30 @@ pub fn wake_all(res: u64) {
     for t in g.tasks.iter_mut() {
         if t.status == Status::Blocked(res) {
             t.status = Status::Runnable;
+            t.timed = false;
         }
     }
+}
+
+/// Block with a timeout.  Returns true if the wait ended by timeout (the scheduler fires a
+/// timeout only when no task can run — time is what passes when everyone waits).
+pub fn block_timed(res: u64, label: &str) -> bool {
+    let Some(me) = me() else { return true };
+    {
+        let mut g = lock();
+        if !g.enabled {
+            return true;
+        }
+        g.tasks[me].status = Status::Blocked(res);
+        g.tasks[me].timed = true;
+        g.tasks[me].timed_out = false;
+    }
+    switch("", label);
+    let mut g = lock();
+    let r = g.tasks[me].timed_out;
+    g.tasks[me].timed_out = false;
+    g.tasks[me].timed = false;
+    r
 }
 
 pub fn wake_one(res: u64) {
@@ -442,6 +481,7 @@ pub fn wake_one(res: u64) {
     };
     let _ = writeln!(g.trace, "W\t{}\t{}\t{}", k, idx, c.len());
     g.tasks[c[idx]].status = Status::Runnable;
+    g.tasks[c[idx]].timed = false;
 }
 
 struct FinishGuard(usize);
@@ -477,6 +517,8 @@ pub fn spawn<F: FnOnce() + Send + 'static>(name: Option<String>, stack: Option<u
             pending: "thread.start".into(),
             pending_res: String::new(),
             prio,
+            timed: false,
+            timed_out: false,
         });
         tid
     };
